@@ -314,7 +314,7 @@ func init() {
 				c.Do(subC19, &progCase{Src: src, Shard: shard})
 				return !c.Expired()
 			}
-			for _, s := range gen.Core() {
+			for _, s := range c19Corpus(c) {
 				if !do(s, "") {
 					return
 				}
@@ -351,4 +351,13 @@ func init() {
 			return v
 		},
 	})
+}
+
+// c19Corpus: quick runs the base corpus (the mechanically generated name/scope families add nothing for the
+// introspection options); thorough runs all of it.
+func c19Corpus(c *fw.Ctx) []string {
+	if c.Quick() {
+		return gen.CoreBase()
+	}
+	return gen.Core()
 }
